@@ -17,26 +17,26 @@ CHECKS = {
  "C08": dict(
    category="exploration",
    technique="deterministic simulation of stepped find_iter histories over a fault-injected search layer, refined against an executable iterator model",
-   text="find_iter is stepped one next() at a time over the real search primitive, with a limit fault injected into a chosen search of the iteration; the yielded history and the recorded lower-layer calls are compared with a small executable transcription of the statement that queries the same fault-injected search layer; in-run invariants (ordering, no overlap, char boundaries, bounded item count) and fused-after-Err are checked on every history. Seeded exploration of (pattern, text, fault position).",
-   note="Trusts the answer of each single search (C01/C02). \\K inside look-behind is kept out of generated workloads (known finding, probed by fixed witnesses).",
+   text="find_iter is stepped one next() at a time over the real search primitive, with a limit fault injected into a chosen search of the iteration; the yielded history and the recorded lower-layer calls are compared with a small executable transcription of the statement that queries the same fault-injected search layer; in-run invariants (ordering, no overlap, char boundaries, bounded item count, at most four searches per next()) and fused-after-Err are checked on every history. Two further model elements remove trust from the lower layer: fault-free histories of patterns with \\G are also compared with an iteration that never passes the skipped-empty flag (\\G replaced by (?!) at stepped positions), and on a sample every continuing search is compared with the same search expressed from position 0 (only when both run identical VM code for the pattern). Seeded exploration of (pattern, text, fault position).",
+   note="Trusts the answer of a single search from position 0 (C01/C02); continuing searches are cross-checked on a sample. Histories showing the listed \\K-in-look-behind signature are counted, not reported (known finding, also probed by fixed witnesses).",
    design="4.2"),
  "C11": dict(
    category="exploration",
    technique="deterministic simulation of try_replacen over a fault-injected search layer, refined against an executable replace model",
-   text="try_replacen / replace / replacen / replace_all run with every replacer kind and limits 0..3 over the real iterators, with limit faults injected into chosen searches; the result is compared with an executable model (gaps verbatim, first n matches replaced, tail verbatim) built from the fault-free match sequence; Borrowed-iff-no-match, replacer-kind equivalence, fast/slow path agreement and Err-not-panic-never-partial under every fired fault are checked.",
+   text="try_replacen / replace / replacen / replace_all run with every replacer kind and limits 0..3 over the real iterators, with limit faults injected into chosen searches; the result is compared with an executable model (gaps verbatim, first n matches replaced, tail verbatim) built from the fault-free match sequence; Borrowed-iff-no-match, replacer-kind equivalence (also under a limit fault), fast/slow path agreement, one replacer object reused for two calls through by_ref(), at most 2(chars+3)+6 searches per call, and Err-not-panic-never-partial under every fired fault are checked.",
    note="Trusts find_iter / captures_iter sequences (C08) and single searches; template parsing beyond well-formed $$, ${N}, ${name} tokens is C12's.",
    design="4.3"),
  "C18": dict(
    category="exploration",
    technique="deterministic simulation of 2..16 caller threads under a seeded baton scheduler (real threads, one runs at a time, every hand-off drawn from the seed and recorded), self-reference oracle; plus a Miri many-seeds slice (second seeded scheduler, basic-block preemption, data-race detector) in both tiers",
-   text="Caller threads run seeded programs over the whole search API on one shared Regex and on clones; they can lose the CPU at every VM instruction, backtrack, delegate call and API/iterator seam, and the seeded scheduler decides every hand-off (uniform, PCT-like and operation-boundary policies, swarm-varied). Every call must return exactly what the same call returns alone on a fresh Regex; no panic difference, no deadlock. The schedule is the replay file. Send/Sync/Clone are asserted at compile time. A small 3-thread program over the shipped (hook-free) library is additionally interpreted by Miri over a window of scheduler seeds (16 quick / 3x96 thorough); a failing Miri seed is the replay.",
+   text="Caller threads run seeded programs over the whole search API on one shared Regex and on clones; they can lose the CPU at every VM instruction, backtrack, delegate call and API/iterator seam, and the seeded scheduler decides every hand-off (uniform, PCT-like and operation-boundary policies, swarm-varied). A third of the scenarios also exercise the regex life cycle across threads (a thread drops a regex and compiles a sibling into a mailbox, others search with whatever is there). Every call must return exactly what the same call returns alone on a fresh Regex; no panic difference, no deadlock. The schedule is the replay file. Send/Sync/Clone are asserted at compile time. A small 3-thread program over the shipped (hook-free) library is additionally interpreted by Miri over a window of scheduler seeds (16 quick / 3x96 thorough); a failing Miri seed is the replay.",
    note="Interleavings are explored at yield-point granularity; data races below that granularity exist only for unsafe code and are left to the Miri slice, which is small because Miri is slow (about 4 s per execution). regex-automata runs real code in both.",
    design="4.4"),
  "C20": dict(
    category="exploration",
    technique="deterministic simulation of rollback/commit histories against a whole-state-copy reference model, at the hooked State API and shadowing real VM runs, with capacity and limit faults",
-   text="Seeded legal operation histories (create/abandon alternative, write slot, aux push/pop, enter/commit atomic, raw cut, capacity faults) are executed against the VM's private State through the hook wrapper and against a model that keeps complete copies; slots, auxiliary stack, depth and return values are compared after every operation. The same model shadows real vm::run executions through the observer hook, adding bracket discipline (every EndAtomic commits against its own BeginAtomic's marker and depth), negative-look-around unwinding to its own alternative, and result-slot equality, also under injected limit aborts.",
-   note="Trusts the read-only view of State (slots, live aux stack, depth). Conditionals inside atomic contexts are kept out of generated VM workloads (known finding, probed by fixed witnesses).",
+   text="Seeded legal operation histories (create/abandon alternative, write slot, aux push/pop, enter/commit atomic, raw cut, capacity faults) are executed against the VM's private State through the hook wrapper and against a model that keeps complete copies; slots, auxiliary stack, depth and return values are compared after every operation. The same model shadows real vm::run executions through the observer hook, adding bracket discipline (every EndAtomic commits, against its own BeginAtomic's marker and depth), negative-look-around unwinding to its own alternative, and result-slot equality, also under injected limit aborts.",
+   note="Trusts the read-only view of State (slots, live aux stack, depth). A generated run that consumes a conditional's leaked atomic marker (listed known finding, recognised by its call-site signature) is counted and not checked past that point.",
    design="4.5"),
 }
 
